@@ -23,7 +23,7 @@ LEVEL = "exploration"
 LEVEL_TEXT = ("ADDITIVE, UPPER and RECOVERY are the bounded symbolic obligations of C02 on the real summation / site-cascade / read-out functions; "
               "ORDER is an exhaustive enumeration of zone trees up to depth 3 through the real recursion with the two targeting entry points "
               "replaced by recorders. The lower bound (TS >= site DI) is not covered by this technique.")
-NOT_COVERED = ["total-site targets never smaller than the site's own direct-integration targets (global optimality across two cascades)"]
+NOT_COVERED = ["total-site targets never smaller than the site's own direct-integration targets for ALL sites (global optimality across two cascades): only the small native scope of C09.ordering.b"]
 
 S, P, O = ZoneType.S.value, ZoneType.P.value, ZoneType.O.value
 
@@ -88,6 +88,43 @@ def ob_order(h):
     h.check("site_gets_its_own_direct_integration", ("DI", "Site") in log)
 
 
+SITES = {
+    "recovery_possible": [("A", "H1", 250.0, 120.0, 1300.0), ("A", "C1", 40.0, 100.0, 300.0), ("B", "C2", 60.0, 180.0, 1200.0), ("B", "H2", 90.0, 50.0, 200.0)],
+    "none_possible": [("A", "H1", 200.0, 100.0, 1000.0), ("B", "C1", 50.0, 150.0, 800.0)],
+    "three_zones": [("A", "H1", 300.0, 150.0, 1500.0), ("B", "C1", 100.0, 200.0, 1000.0), ("C", "H2", 120.0, 40.0, 800.0), ("C", "C2", 20.0, 90.0, 700.0)],
+    "nested_labels": [("A/X", "H1", 300.0, 150.0, 1500.0), ("A/Y", "C1", 100.0, 200.0, 1000.0), ("B", "H2", 120.0, 40.0, 800.0), ("B", "C2", 20.0, 90.0, 700.0)],
+    "one_zone": [("A", "H1", 250.0, 120.0, 1300.0), ("A", "C1", 40.0, 200.0, 1600.0)],
+}
+LADDERS = {
+    "none": [],
+    "one_level_per_side": [("HP", "Hot", 320.0, 319.0), ("CW", "Cold", 10.0, 15.0)],
+    "intermediate_levels": [("HP", "Hot", 320.0, 319.0), ("MP", "Both", 190.0, 189.0), ("LP", "Both", 130.0, 129.0), ("CW", "Cold", 10.0, 15.0)],
+    "one_intermediate_level": [("HP", "Hot", 320.0, 319.0), ("LP", "Both", 110.0, 109.0), ("CW", "Cold", 10.0, 15.0)],
+}
+
+
+def ob_ordering(h):
+    """ORDER on the records the real service returns: site direct integration <= total site <= sum of zones, for Qh and Qc; total-site
+    recovery = summed zonal recovery + hot utility saved.  Native, on a small pool of sites x utility ladders."""
+    from pvc.engine import native
+    site = h.choice("site", list(SITES))
+    ladder = h.choice("utility_ladder", list(LADDERS))
+    with native():
+        prob = {"streams": [dict(zone=z, name=n, t_supply=a, t_target=b, heat_flow=q, dt_cont=5.0, htc=1.0) for z, n, a, b, q in SITES[site]],
+                "utilities": [dict(name=n, type=t, t_supply=a, t_target=b, dt_cont=5.0, price=10.0, htc=1.0, heat_flow=None) for n, t, a, b in LADDERS[ladder]],
+                "options": {}}
+        out = main.pinch_analysis_service(prob, project_name="Site")
+        rec = {t.name: t for t in out.targets}
+        di, tp, ts = rec["Site/Direct Integration"], rec["Site/Total Process Target"], rec["Site/Total Site Target"]
+        eps = 1e-6 * max(1.0, sum(q for *_, q in SITES[site]))
+        zones = [t for n, t in rec.items() if n.endswith("/Direct Integration") and n != "Site/Direct Integration" and "/" not in n[:-len("/Direct Integration")]]
+        if site != "nested_labels":      # (records of nested zones carry the leaf name only: the partition into top-level zones is C09.additive / C09.order)
+            h.check("total_process_is_sum_of_top_level_zones", abs(tp.Qh - sum(z.Qh for z in zones)) <= eps and abs(tp.Qc - sum(z.Qc for z in zones)) <= eps)
+        h.check("total_site_not_above_the_sum_of_zones", ts.Qh <= tp.Qh + eps and ts.Qc <= tp.Qc + eps)
+        h.check("total_site_not_below_site_direct_integration", ts.Qh >= di.Qh - eps and ts.Qc >= di.Qc - eps)
+        h.check("total_site_recovery_is_zonal_recovery_plus_hot_utility_saved", abs(ts.Qr - (tp.Qr + (tp.Qh - ts.Qh))) <= eps)
+
+
 def obligations():
     obs = []
     for o in C02.obligations():
@@ -96,4 +133,7 @@ def obligations():
             obs.append(Obligation(nm, o.fn, kind=o.kind, functions=o.functions, bound=o.bound, max_paths=o.max_paths, stubs=o.stubs, doc=o.doc))
     obs.append(Obligation("C09.order.b", ob_order, kind="bounded", bound="every zone tree of the listed shapes up to depth 3 x both operation/process option flags (exhaustive)",
                           functions=[main.get_targets, main._get_site_targets, main._get_process_targets, main._get_unit_operation_targets], max_paths=100000))
+    obs.append(Obligation("C09.ordering.b", ob_ordering, kind="smallscope", functions=[main.pinch_analysis_service], max_paths=10000,
+                          bound=f"{len(SITES)} sites (1..3 zones, nested labels) x {len(LADDERS)} utility ladders, real service run natively (exhaustive)",
+                          doc="ORDER: DI(site) <= TS <= sum of zones on the returned records (the lower bound has no contract in reach: small native scope only)"))
     return obs
